@@ -768,10 +768,57 @@ def r5(ctx: Ctx) -> None:
         unp = [g.nodes[x] for x in reach if g.nodes[x].kind == "stmt" and isinstance(g.nodes[x].ast, ast.Assign)
                and isinstance(g.nodes[x].ast.targets[0], ast.Tuple)]
         if len(ctors) == 2 and unp:
-            lo, hi = [e.id for e in unp[0].ast.targets[0].elts]  # type: ignore[union-attr]
-            pairs = {(c.ast.args[1].attr, norm_text(c.ast.args[2])) for c in ctors if isinstance(c.ast, ast.Call) and len(c.ast.args) == 3 and isinstance(c.ast.args[1], ast.Attribute)}
-            ok = pairs == {("GE", lo), ("LE", hi)}
-            detail = f"expansion {sorted(pairs)} from `{norm_text(unp[0].ast)}`"
+            rd = ctx.rd(pf)
+
+            def unpack_pos(e: Optional[ast.AST], at: int, depth: int = 0) -> Optional[Tuple[int, int]]:
+                """(position, unpacking statement) the value of e was unpacked at - through locals, `a, b = x, y` displays and
+                the returned tuple of a helper analysed in place"""
+                if depth > 8:
+                    return None
+                if isinstance(e, ast.Subscript) and isinstance(e.slice, ast.Constant) and isinstance(e.slice.value, int) \
+                        and isinstance(e.value, ast.Name):
+                    sd = rd.reaching(at, e.value.id)  # `items[0]`, `items[1]` of one materialised pair
+                    return (e.slice.value, next(iter(sd))) if len(sd) == 1 else None
+                if not isinstance(e, ast.Name):
+                    return None
+                defs = rd.reaching(at, e.id)
+                if len(defs) != 1:
+                    return None
+                d = next(iter(defs))
+                dn = g.nodes[d]
+                if d == g.entry or not isinstance(dn.ast, ast.Assign) or len(dn.ast.targets) != 1:
+                    return None
+                tg = dn.ast.targets[0]
+                if isinstance(tg, ast.Name):
+                    return unpack_pos(dn.ast.value, d, depth + 1)
+                if not isinstance(tg, (ast.Tuple, ast.List)):
+                    return None
+                idx = next((i for i, t_ in enumerate(tg.elts) if isinstance(t_, ast.Name) and t_.id == e.id), None)
+                if idx is None:
+                    return None
+                v = dn.ast.value
+                srcs = []
+                if isinstance(v, ast.Call) and id(v) in g.inline_returns:
+                    srcs = [(rx, rn) for rx, rn in g.inline_returns[id(v)] if rn in g.reachable()]
+                elif isinstance(v, (ast.Tuple, ast.List)):
+                    srcs = [(v, d)]
+                if srcs:
+                    outs = set()
+                    for sx, sn in srcs:
+                        if isinstance(sx, (ast.Tuple, ast.List)) and len(sx.elts) == len(tg.elts):
+                            outs.add(unpack_pos(sx.elts[idx], sn, depth + 1))
+                        else:
+                            outs.add(None)
+                    return outs.pop() if len(outs) == 1 else None
+                return (idx, d)
+
+            got = {}
+            for c in ctors:
+                if isinstance(c.ast, ast.Call) and len(c.ast.args) == 3 and isinstance(c.ast.args[1], ast.Attribute):
+                    got[c.ast.args[1].attr] = unpack_pos(c.ast.args[2], c.id)
+            ok = set(got) == {"GE", "LE"} and got["GE"] is not None and got["LE"] is not None \
+                and got["GE"][0] == 0 and got["LE"][0] == 1 and got["GE"][1] == got["LE"][1]
+            detail = f"GE <- element {got.get('GE')}, LE <- element {got.get('LE')} of the unpacked (lo, hi) pair"
     ctx.ob("C12.R5", pf, "between -> (GE, lo), (LE, hi)", brs[0] if brs else None, ok, detail or "between branch not found")
     tc = ctx.fn("filters.to_pyarrow_compute_expression")
     folds = [n for n in ast.walk(tc.node) if isinstance(n, ast.Assign) and isinstance(n.value, ast.BinOp)
